@@ -676,7 +676,8 @@ func (envs *Manager) TeardownEnvironment(environmentId uid.ID, force bool) error
 	// we gather all DESTROY/after_DESTROY hooks, as these require special treatment
 	hooksMapForDestroy := env.Workflow().GetHooksMapForTrigger("DESTROY")
 	for k, v := range env.Workflow().GetHooksMapForTrigger("after_DESTROY") {
-		hooksMapForDestroy[k] = v
+		// a weight may carry both DESTROY and after_DESTROY hooks, we keep both
+		hooksMapForDestroy[k] = append(hooksMapForDestroy[k], v...)
 	}
 
 	allWeights := hooksMapForDestroy.GetWeights()
